@@ -19,5 +19,7 @@ if [ -n "$(git -C /repo status --porcelain --untracked-files=no)" ]; then echo "
 cd /repo && git apply $dst/patch.diff || { echo "patch does not apply to /repo"; exit 2; }
 out=$(/verif/bin/gvc check --property $prop 2>&1); rc=$?
 git -C /repo checkout -- .
+# the runs above were made on changed trees: put the evidence files of the unchanged tree back
+git -C /verif checkout -- evidence 2>/dev/null
 echo "CHECK rc=$rc"; echo "$out" | grep "^FAILED\|^VIOLATION\|^OK" | head -6 | cut -c1-300
 echo "{\"with\": $(echo "$with" | jq -Rs .), \"without\": $(echo "$without" | jq -Rs .), \"suite\": $(echo "$suite" | jq -Rs .), \"check_rc\": $rc, \"check_out\": $(echo "$out" | grep "^FAILED\|^VIOLATION\|^OK" | head -6 | jq -Rs .)}" > $dst/run.json
